@@ -914,4 +914,232 @@ Section Lemmas.
 
   Theorem merge_group_nil cnt : merge_group fa cfg cnt [] = inr SEValue.
   Proof. reflexivity. Qed.
+
+  (** ** second merge: [group_nodes] *)
+  Definition node_pass (a : stmt) : bool :=
+    str_eqb (s_prop a) (x_tau cfg) || negb (is_nonliteral_type (s_type a)).
+
+  Lemma group_nodes_gen fuel cnt l :
+    group_nodes fa cfg fuel cnt l = grp_gen node_pass mergeable_with (merge_group fa cfg cnt) fuel l.
+  Proof.
+    revert l; induction fuel as [|f IH]; intros l; [reflexivity|].
+    destruct l as [|a rest]; [reflexivity|]. cbn [group_nodes grp_gen]. rewrite !IH. reflexivity.
+  Qed.
+
+  Lemma mergeable_spec a y :
+    node_pass a = false -> mergeable_with a y = negb (node_pass y) && str_eqb (s_prop a) (s_prop y).
+  Proof.
+    unfold node_pass, mergeable_with. intros Ha. apply orb_false_iff in Ha. destruct Ha as [Ha _].
+    destruct (str_eqb (s_prop a) (s_prop y)) eqn:E.
+    - apply str_eqb_eq in E. rewrite <- E, Ha. cbn. rewrite negb_involutive, andb_true_r. reflexivity.
+    - rewrite !andb_false_r. reflexivity.
+  Qed.
+
+  (** the statements that survive as such or open a merge group *)
+  Definition node_heads (l : list stmt) : list stmt := heads node_pass mergeable_with l.
+
+  (** the non-literal statements of the property of [a] *)
+  Definition node_group (l : list stmt) (a : stmt) : list stmt :=
+    filter (fun s => negb (node_pass s) && str_eqb (s_prop a) (s_prop s)) l.
+
+  Definition node_pick (cnt : N) (l : list stmt) (a r : stmt) : Prop :=
+    if node_pass a then r = a
+    else match node_group l a with
+         | [] => False
+         | [x] => r = x
+         | g => merge_group fa cfg cnt g = inl r
+         end.
+
+  (** Main statement for the second merge: with enough fuel, the statements
+      whose property is tau or whose type is a literal type pass unchanged;
+      the non-literal statements of any other property are replaced, at the
+      position of the first of them, by the only one of them or by what
+      [merge_group] makes of all of them (in input order). *)
+  Theorem group_nodes_spec fuel cnt l out :
+    (List.length l <= fuel)%nat -> group_nodes fa cfg fuel cnt l = inl out ->
+    Forall2 (node_pick cnt l) (node_heads l) out.
+  Proof.
+    intros Hlen H. rewrite group_nodes_gen in H.
+    pose proof (grp_gen_spec _ _ _ _ str_eqb str_eqb_eq s_prop mergeable_spec fuel l out Hlen H) as F.
+    eapply Forall2_impl_In; [|exact F]. intros a r _ _ Hp. unfold gpick in Hp. unfold node_pick, node_group.
+    destruct (node_pass a) eqn:Ha; [exact Hp|].
+    rewrite (filter_ext_In (fun s => negb (node_pass s) && str_eqb (s_prop a) (s_prop s)) (mergeable_with a));
+      [exact Hp | intros y _; symmetry; apply mergeable_spec; exact Ha].
+  Qed.
+
+  Theorem group_nodes_total fuel cnt l :
+    (forall x, In x l -> exists k, comment_of cfg x = inl k) ->
+    exists out, group_nodes fa cfg fuel cnt l = inl out.
+  Proof.
+    intros Hc. rewrite group_nodes_gen. apply grp_gen_total. intros g Hg Hi.
+    apply merge_group_total; [exact Hg|]. intros x Hx. apply Hc, Hi, Hx.
+  Qed.
+
+  Lemma node_heads_In a l : In a (node_heads l) -> In a l.
+  Proof. exact (heads_In node_pass mergeable_with (fun _ => inr SEValue) a l). Qed.
+
+  Lemma node_heads_pass s l : In s l -> node_pass s = true -> In s (node_heads l).
+  Proof. exact (heads_pass _ _ _ str_eqb s_prop mergeable_spec s l). Qed.
+
+  Lemma node_heads_cover s l :
+    In s l -> node_pass s = false ->
+    exists a, In a (node_heads l) /\ node_pass a = false /\ s_prop a = s_prop s.
+  Proof. exact (heads_cover _ _ _ str_eqb str_eqb_eq s_prop mergeable_spec s l). Qed.
+
+  Lemma node_heads_nodup_prop l : NoDup (map s_prop (filter (fun a => negb (node_pass a)) (node_heads l))).
+  Proof. exact (heads_nodup_key _ _ _ str_eqb str_eqb_eq s_prop mergeable_spec l). Qed.
+
+  Lemma node_heads_NoDup_map {B} (g : stmt -> B) l : NoDup (map g l) -> NoDup (map g (node_heads l)).
+  Proof. exact (NoDup_map_heads node_pass mergeable_with (fun _ => inr SEValue) g l). Qed.
+
+  (** ** [select_valid] *)
+  Lemma select_valid_eq cnt l :
+    select_valid fa cfg cnt l =
+    match group_same fa cfg (List.length l) cnt l with
+    | inr e => inr e
+    | inl l1 => group_nodes fa cfg (List.length l1) cnt l1
+    end.
+  Proof. destruct l; reflexivity. Qed.
+
+  Theorem select_valid_total cnt l :
+    (forall x, In x l -> exists k, comment_of cfg x = inl k) ->
+    (forall x, chosen_from l x -> exists k, comment_of cfg x = inl k) ->
+    exists out, select_valid fa cfg cnt l = inl out.
+  Proof.
+    intros Hc Hc2. rewrite select_valid_eq.
+    destruct (group_same_total (List.length l) cnt l Hc) as [l1 E]. rewrite E.
+    apply group_nodes_total. intros x Hx.
+    pose proof (group_same_out _ _ _ _ x (le_n _) E Hx) as Hch. apply Hc2.
+    destruct Hch as [s [Hs [Hcore [ks [Hk Hf]]]]]. exists s. apply filter_In in Hs.
+    split; [tauto|]. split; [exact Hcore|]. exists ks. split; [exact Hk|].
+    unfold comments_from in *. rewrite Forall_forall in *. intros k Hk0. destruct (Hf k Hk0) as [y [Hy Hy2]].
+    exists y. apply filter_In in Hy. tauto.
+  Qed.
+
+  (** ** tuning *)
+  Definition relaxed (s : stmt) (k : comment) : stmt :=
+    {| s_inv := s_inv s; s_prop := s_prop s; s_types := s_types s; s_choice := s_choice s;
+       s_card := relax_card cfg (s_card s); s_nocc := s_nocc s; s_prob := POne;
+       s_comments := k :: s_comments s |}.
+
+  Definition tune_post (s : stmt) : stmt :=
+    let s2 := if x_disable_exact cfg then generalize_exact s else s in
+    if x_disable_comments cfg then drop_comments s2 else s2.
+
+  Definition tune_one (cnt : N) (s : stmt) : stmt + serr :=
+    match (if x_all_compliant cfg then relax fa cfg cnt s else inl s) with
+    | inr e => inr e
+    | inl s1 => inl (tune_post s1)
+    end.
+
+  Lemma map_err_post {A B C E} (f : A -> B + E) (g : B -> C) l :
+    match map_err f l with inr e => inr e | inl l1 => inl (map g l1) end =
+    map_err (fun x => match f x with inr e => inr e | inl y => inl (g y) end) l.
+  Proof.
+    induction l as [|x l IH]; cbn; [reflexivity|].
+    destruct (f x) as [y|e]; [|reflexivity]. rewrite <- IH. destruct (map_err f l); reflexivity.
+  Qed.
+
+  Lemma map_err_inl {A B E} (g : A -> B) l : map_err (fun x => @inl B E (g x)) l = inl (map g l).
+  Proof. induction l as [|x l IH]; cbn; [reflexivity | rewrite IH; reflexivity]. Qed.
+
+  Theorem tune_eq cnt valid : tune fa cfg cnt valid = map_err (tune_one cnt) (sort_desc fa cnt valid).
+  Proof.
+    destruct valid as [|v valid]; [reflexivity|]. unfold tune. generalize (sort_desc fa cnt (v :: valid)). intros l0.
+    assert (Hpost : forall l1, (if x_disable_comments cfg
+                                then map drop_comments (if x_disable_exact cfg then map generalize_exact l1 else l1)
+                                else (if x_disable_exact cfg then map generalize_exact l1 else l1)) = map tune_post l1).
+    { intros l1. unfold tune_post. destruct (x_disable_comments cfg), (x_disable_exact cfg); cbn;
+        rewrite ?map_map, ?map_id; reflexivity. }
+    unfold tune_one. destruct (x_all_compliant cfg).
+    - rewrite <- map_err_post. destruct (map_err (relax fa cfg cnt) l0); [rewrite Hpost|]; reflexivity.
+    - rewrite map_err_inl. rewrite Hpost. reflexivity.
+  Qed.
+
+  Theorem tune_spec cnt valid out :
+    tune fa cfg cnt valid = inl out ->
+    Forall2 (fun s t => tune_one cnt s = inl t) (sort_desc fa cnt valid) out.
+  Proof. rewrite tune_eq. apply map_err_Forall2. Qed.
+
+  (** what tuning never touches *)
+  Definition sig (s : stmt) := (s_inv s, s_prop s, s_types s, s_choice s, s_nocc s).
+
+  Lemma generalize_exact_fields s :
+    sig (generalize_exact s) = sig s /\ s_prob (generalize_exact s) = s_prob s /\
+    s_comments (generalize_exact s) = s_comments s /\
+    s_card (generalize_exact s) = match s_card s with
+                                  | CExact k => if N.ltb 1 k then CPlus else CExact k
+                                  | c => c
+                                  end.
+  Proof.
+    unfold generalize_exact. destruct (s_card s) as [k| | |] eqn:E; try (rewrite E; auto).
+    destruct (N.ltb 1 k); cbn; [auto | rewrite E; auto].
+  Qed.
+
+  Lemma tune_post_fields s :
+    sig (tune_post s) = sig s /\ s_prob (tune_post s) = s_prob s /\
+    s_comments (tune_post s) = (if x_disable_comments cfg then [] else s_comments s) /\
+    s_card (tune_post s) = if x_disable_exact cfg
+                           then match s_card s with
+                                | CExact k => if N.ltb 1 k then CPlus else CExact k
+                                | c => c
+                                end
+                           else s_card s.
+  Proof.
+    unfold tune_post. destruct (generalize_exact_fields s) as (G1 & G2 & G3 & G4).
+    destruct (x_disable_comments cfg), (x_disable_exact cfg); cbn; unfold sig in *; cbn; auto.
+  Qed.
+
+  (** the all-compliant rule on one statement *)
+  Inductive relax_step (cnt : N) (s : stmt) : stmt -> Prop :=
+  | Relax_off : x_all_compliant cfg = false -> relax_step cnt s s
+  | Relax_one : x_all_compliant cfg = true -> feqb fa (pv fa cnt s) (fone fa) = true -> relax_step cnt s s
+  | Relax_do k : x_all_compliant cfg = true -> feqb fa (pv fa cnt s) (fone fa) = false ->
+                 comment_of cfg s = inl k -> relax_step cnt s (relaxed s k).
+
+  Theorem tune_one_spec cnt s t :
+    tune_one cnt s = inl t -> exists s1, relax_step cnt s s1 /\ t = tune_post s1.
+  Proof.
+    unfold tune_one. destruct (x_all_compliant cfg) eqn:Ea.
+    - unfold relax. destruct (feqb fa (pv fa cnt s) (fone fa)) eqn:Ef; cbn [negb].
+      + intros H; injection H as <-. exists s. split; [apply Relax_one; assumption | reflexivity].
+      + destruct (comment_of cfg s) as [k|e] eqn:Ek; [|discriminate].
+        intros H; injection H as <-. exists (relaxed s k). split; [apply Relax_do; assumption | reflexivity].
+    - intros H; injection H as <-. exists s. split; [apply Relax_off; assumption | reflexivity].
+  Qed.
+
+  Lemma relax_step_sig cnt s s1 : relax_step cnt s s1 -> sig s1 = sig s.
+  Proof. intros H; destruct H; reflexivity. Qed.
+
+  Lemma tune_one_sig cnt s t : tune_one cnt s = inl t -> sig t = sig s.
+  Proof.
+    intros H. apply tune_one_spec in H. destruct H as [s1 [Hr ->]].
+    destruct (tune_post_fields s1) as [-> _]. apply (relax_step_sig cnt); exact Hr.
+  Qed.
+
+  (** tuning keeps the multiset of (direction, property, types, choice, count) *)
+  Theorem tune_sig_perm cnt valid out :
+    tune fa cfg cnt valid = inl out -> Permutation (map sig valid) (map sig out).
+  Proof.
+    intros H. apply tune_spec in H.
+    eapply perm_trans; [apply Permutation_map, (sort_desc_perm cnt)|].
+    rewrite (Forall2_map_eq sig sig (sort_desc fa cnt valid) out); [apply Permutation_refl|].
+    eapply Forall2_impl_In; [|exact H]. intros s t _ _ Ht. symmetry. apply (tune_one_sig cnt); exact Ht.
+  Qed.
+
+  Theorem tune_total cnt valid :
+    (x_all_compliant cfg = true -> forall x, In x valid -> exists k, comment_of cfg x = inl k) ->
+    exists out, tune fa cfg cnt valid = inl out.
+  Proof.
+    intros Hc. rewrite tune_eq.
+    assert (H : forall l, (forall x, In x l -> In x valid) -> exists out, map_err (tune_one cnt) l = inl out).
+    { induction l as [|x l IH]; intros Hi; [eexists; reflexivity|]. cbn.
+      assert (Hx : exists t, tune_one cnt x = inl t).
+      { unfold tune_one. destruct (x_all_compliant cfg) eqn:Ea; [|eexists; reflexivity].
+        unfold relax. destruct (negb _); [|eexists; reflexivity].
+        destruct (Hc eq_refl x (Hi x (or_introl eq_refl))) as [k ->]. eexists; reflexivity. }
+      destruct Hx as [t ->]. destruct IH as [ts ->]; [intros y Hy; apply Hi; right; exact Hy|].
+      eexists; reflexivity. }
+    apply H. intros x Hx. apply (sort_desc_In cnt). exact Hx.
+  Qed.
 End Lemmas.
